@@ -356,3 +356,262 @@ impl Transaction {
 		self.start_seq_num
 	}
 }
+
+// ===========================================================================
+// Component facades (the component types are crate-private; these newtypes only delegate)
+// ===========================================================================
+
+use std::ops::Bound;
+use std::path::Path;
+
+use crate::oracle::CommitOracle;
+use crate::sstable::table::{Table, TableIterator, TableWriter};
+use crate::tracker::{ActiveTxnGuard, ActiveTxnTracker};
+use crate::vfs::File as VfsFile;
+use crate::wal::manager::Wal;
+use crate::wal::reader::Reader;
+use crate::{InternalKey, InternalKeyKind, LSMIterator};
+
+/// One versioned table entry.
+#[derive(Clone, Debug, PartialEq, Eq, PartialOrd, Ord)]
+pub struct VEntry {
+	pub user_key: Vec<u8>,
+	pub seq: u64,
+	pub kind: u8,
+	pub ts: u64,
+	pub value: Vec<u8>,
+}
+
+fn ventry(k: &crate::InternalKeyRef<'_>, v: &[u8]) -> VEntry {
+	VEntry {
+		user_key: k.user_key().to_vec(),
+		seq: k.seq_num(),
+		kind: k.kind() as u8,
+		ts: k.timestamp(),
+		value: v.to_vec(),
+	}
+}
+
+/// Write a table into memory with the real `TableWriter`.
+pub fn verif_write_table(opts: &Arc<Options>, id: u64, level: u8, entries: &[VEntry]) -> Result<Vec<u8>> {
+	let mut buf: Vec<u8> = Vec::new();
+	{
+		let mut w = TableWriter::new(&mut buf, id, Arc::clone(opts), level);
+		for e in entries {
+			let k = InternalKey::new(e.user_key.clone(), e.seq, InternalKeyKind::from(e.kind), e.ts);
+			w.add(k, &e.value)?;
+		}
+		w.finish()?;
+	}
+	Ok(buf)
+}
+
+pub struct VTable(Arc<Table>);
+
+fn user_bound<'a>(b: &'a Bound<Vec<u8>>) -> Bound<&'a [u8]> {
+	match b {
+		Bound::Unbounded => Bound::Unbounded,
+		Bound::Included(k) => Bound::Included(k.as_slice()),
+		Bound::Excluded(k) => Bound::Excluded(k.as_slice()),
+	}
+}
+
+impl VTable {
+	/// Open a table from bytes held in memory (the real `Table::new`).
+	pub fn open(opts: &Arc<Options>, id: u64, bytes: Vec<u8>) -> Result<VTable> {
+		let size = bytes.len() as u64;
+		let file: Arc<dyn VfsFile> = Arc::new(bytes);
+		Ok(VTable(Arc::new(Table::new(id, Arc::clone(opts), file, size)?)))
+	}
+
+	/// Point lookup exactly as `Snapshot::get` issues it.
+	pub fn get(&self, user_key: &[u8], snapshot_seq: u64) -> Result<Option<VEntry>> {
+		let ikey = InternalKey::new(user_key.to_vec(), snapshot_seq, InternalKeyKind::Set, 0);
+		Ok(self.0.get(&ikey)?.map(|(k, v)| VEntry {
+			user_key: k.user_key.clone(),
+			seq: k.seq_num(),
+			kind: k.kind() as u8,
+			ts: k.timestamp,
+			value: v,
+		}))
+	}
+
+	pub fn iter(&self, lower: &Bound<Vec<u8>>, upper: &Bound<Vec<u8>>) -> Result<VTableIter<'_>> {
+		let range = crate::user_range_to_internal_range(user_bound(lower), user_bound(upper));
+		Ok(VTableIter(self.0.iter(Some(range))?))
+	}
+
+	/// (is_before_range, is_after_range, overlaps_with_range) for user-key bounds.
+	pub fn range_shortcuts(&self, lower: &Bound<Vec<u8>>, upper: &Bound<Vec<u8>>) -> (bool, bool, bool) {
+		let range = crate::user_range_to_internal_range(user_bound(lower), user_bound(upper));
+		(self.0.is_before_range(&range), self.0.is_after_range(&range), self.0.overlaps_with_range(&range))
+	}
+
+	pub fn is_key_in_key_range(&self, user_key: &[u8]) -> bool {
+		let ikey = InternalKey::new(user_key.to_vec(), 0, InternalKeyKind::Set, 0);
+		self.0.is_key_in_key_range(&ikey)
+	}
+
+	pub fn num_entries(&self) -> u64 {
+		self.0.meta.properties.num_entries
+	}
+
+	pub fn block_count(&self) -> u64 {
+		self.0.meta.properties.num_data_blocks
+	}
+
+	pub fn index_partitions(&self) -> u64 {
+		self.0.meta.properties.index_partitions
+	}
+}
+
+pub struct VTableIter<'a>(TableIterator<'a>);
+
+impl VTableIter<'_> {
+	/// Seek to the first entry at or after (user_key, seq) in table order.
+	pub fn seek(&mut self, user_key: &[u8], seq: u64) -> Result<bool> {
+		let k = InternalKey::new(user_key.to_vec(), seq, InternalKeyKind::Max, u64::MAX);
+		self.0.seek(&k.encode())
+	}
+	pub fn seek_first(&mut self) -> Result<bool> {
+		LSMIterator::seek_first(&mut self.0)
+	}
+	pub fn seek_last(&mut self) -> Result<bool> {
+		LSMIterator::seek_last(&mut self.0)
+	}
+	#[allow(clippy::should_implement_trait)]
+	pub fn next(&mut self) -> Result<bool> {
+		LSMIterator::next(&mut self.0)
+	}
+	pub fn prev(&mut self) -> Result<bool> {
+		LSMIterator::prev(&mut self.0)
+	}
+	pub fn valid(&self) -> bool {
+		self.0.valid()
+	}
+	pub fn entry(&self) -> Result<VEntry> {
+		Ok(ventry(&self.0.key(), self.0.value_encoded()?))
+	}
+}
+
+// ----- commit log -----
+
+pub struct VWal(Wal);
+
+impl VWal {
+	pub fn open(dir: &Path, lz4: bool) -> Result<VWal> {
+		let mut o = crate::wal::Options::default();
+		if lz4 {
+			o = o.with_compression(crate::wal::CompressionType::Lz4);
+		}
+		Ok(VWal(Wal::open(dir, o)?))
+	}
+	pub fn append(&mut self, rec: &[u8]) -> Result<()> {
+		self.0.append(rec)?;
+		Ok(())
+	}
+	pub fn flush(&mut self) -> Result<()> {
+		Ok(self.0.flush()?)
+	}
+	pub fn sync(&mut self) -> Result<()> {
+		Ok(self.0.sync()?)
+	}
+	pub fn rotate(&mut self) -> Result<u64> {
+		Ok(self.0.rotate()?)
+	}
+	pub fn close(&mut self) -> Result<()> {
+		Ok(self.0.close()?)
+	}
+	pub fn active_log_number(&self) -> u64 {
+		self.0.get_active_log_number()
+	}
+}
+
+/// How reading a segment ended.
+#[derive(Clone, Debug, PartialEq, Eq)]
+pub enum VWalEnd {
+	Eof,
+	Corruption { offset: u64, message: String },
+	Other(String),
+}
+
+/// Read every record of one segment file with the real `Reader`.
+pub fn verif_wal_read_segment(path: &Path, segment_id: u64) -> Result<(Vec<Vec<u8>>, VWalEnd)> {
+	let file = std::fs::File::open(path)?;
+	let mut reader = Reader::with_options(file, None, segment_id);
+	let mut out = Vec::new();
+	loop {
+		match reader.read() {
+			Ok((rec, _off)) => out.push(rec.to_vec()),
+			Err(crate::wal::Error::IO(e)) if e.kind() == std::io::ErrorKind::UnexpectedEof => {
+				return Ok((out, VWalEnd::Eof));
+			}
+			Err(crate::wal::Error::Corruption(c)) => {
+				return Ok((
+					out,
+					VWalEnd::Corruption {
+						offset: c.offset,
+						message: c.to_string(),
+					},
+				));
+			}
+			Err(e) => return Ok((out, VWalEnd::Other(e.to_string()))),
+		}
+	}
+}
+
+/// The real repair routine.
+pub fn verif_wal_repair(wal_dir: &Path, segment_id: usize) -> Result<()> {
+	crate::wal::recovery::repair_corrupted_wal_segment(wal_dir, segment_id)
+}
+
+// ----- conflict oracle -----
+
+pub struct VOracle {
+	oracle: CommitOracle,
+	tracker: Arc<ActiveTxnTracker>,
+}
+
+pub struct VTxnSlot(#[allow(dead_code)] ActiveTxnGuard);
+
+impl Default for VOracle {
+	fn default() -> Self {
+		Self::new()
+	}
+}
+
+impl VOracle {
+	pub fn new() -> Self {
+		VOracle {
+			oracle: CommitOracle::new(),
+			tracker: Arc::new(ActiveTxnTracker::new()),
+		}
+	}
+	pub fn register(&self, start_seq: u64) -> VTxnSlot {
+		VTxnSlot(self.tracker.register(start_seq))
+	}
+	pub fn oldest_active(&self) -> Option<u64> {
+		self.tracker.oldest()
+	}
+	/// Ok, or the error's name.
+	pub fn check(&self, keys: &[&[u8]], start_seq: u64) -> std::result::Result<(), String> {
+		self.oracle.check(keys.iter().copied(), start_seq).map_err(|e| match e {
+			Error::TransactionRetry => "retry".to_string(),
+			Error::TransactionWriteConflict => "conflict".to_string(),
+			e => e.to_string(),
+		})
+	}
+	pub fn publish(&self, keys: &[&[u8]], seq_num: u64, count: u64, oldest_active: u64) {
+		self.oracle.publish(keys.iter().copied(), seq_num, count, oldest_active)
+	}
+	pub fn rollback(&self, keys: &[&[u8]], stamp: u64) {
+		self.oracle.rollback(keys.iter().copied(), stamp)
+	}
+	pub fn reset_for_restore(&self, max_seq: u64) {
+		self.oracle.reset_for_restore(max_seq)
+	}
+	/// (sorted (fingerprint, stamp) entries, kept_since, commits_since_gc)
+	pub fn state(&self) -> (Vec<(u64, u64)>, u64, u32) {
+		self.oracle.verif_state()
+	}
+}
